@@ -34,6 +34,8 @@ type Case struct {
 	Select  []int       // track selection passed to ReadTracksFrom (empty = all)
 	Ports   map[int]int // track -> port index; key -1 = default port
 	UsePlay bool        // use Play(out) (single default port) instead of MultiPlay
+	// Twice: the same TracksReader is played a second time; both runs are checked
+	Twice bool `json:",omitempty"`
 }
 
 type sent struct {
@@ -194,36 +196,64 @@ func run(c Case) (res ev.Result) {
 	rec := &recorder{}
 	outs := []*fakeOut{{idx: 0, rec: rec}, {idx: 1, rec: rec}, {idx: 2, rec: rec}}
 	var perr error
+	var trd *smf.TracksReader
+	runs := 1
+	if c.Twice {
+		runs = 2
+		res.Classes = append(res.Classes, "played-twice")
+	}
+	for run := 0; run < runs; run++ {
+		rec.mu.Lock()
+		rec.log = nil
+		rec.mu.Unlock()
+		if v := playOnce(c, run, &trd, rec, outs, buf.Bytes(), &perr); v != "" {
+			res.Violation = v
+			return
+		}
+		if v := verify(c, run, rec, want, portOf, changes, perr); v != "" {
+			res.Violation = v
+			return
+		}
+	}
+	return
+}
+
+func playOnce(c Case, run int, trd **smf.TracksReader, rec *recorder, outs []*fakeOut, file []byte, perr *error) string {
 	failed := ev.TryTimeout(ev.Watchdog, func() {
-		trd := smf.ReadTracksFrom(bytes.NewReader(buf.Bytes()), c.Select...)
+		if *trd == nil {
+			*trd = smf.ReadTracksFrom(bytes.NewReader(file), c.Select...)
+		}
 		rec.start = time.Now()
 		if c.UsePlay {
-			perr = trd.Play(outs[0])
+			*perr = (*trd).Play(outs[0])
 		} else {
 			m := map[int]drivers.Out{}
 			for t, p := range c.Ports {
 				m[t] = outs[p%3]
 			}
-			perr = trd.MultiPlay(m)
+			*perr = (*trd).MultiPlay(m)
 		}
 	})
 	if failed != "" {
-		res.Violation = "playing: " + failed
-		return
+		return fmt.Sprintf("playing (run %d): %s", run+1, failed)
 	}
+	return ""
+}
+
+func verify(c Case, run int, rec *recorder, want []planned, portOf func(int) (int, bool), changes []tempo.Change, perr error) string {
+	var res struct{ Violation string }
 	if perr != nil {
 		if !c.UsePlay && len(c.Ports) == 0 {
-			return // documented: no outs set is an error
+			return "" // documented: no outs set is an error
 		}
-		res.Violation = fmt.Sprintf("Play/MultiPlay failed: %v", perr)
-		return
+		return fmt.Sprintf("Play/MultiPlay failed (run %d): %v", run+1, perr)
 	}
 	// observed sends, sysex aside (neither required nor forbidden by the statement)
 	var got []sent
 	for _, x := range rec.log {
 		if len(x.data) > 0 && x.data[0] == 0xFF {
 			res.Violation = fmt.Sprintf("a meta event was sent to a port: % X", x.data)
-			return
+			return res.Violation
 		}
 		if len(x.data) > 0 && (x.data[0] == 0xF0 || x.data[0] == 0xF7) {
 			continue
@@ -242,27 +272,27 @@ func run(c Case) (res ev.Result) {
 		p, ok := index[string(g.data)]
 		if !ok {
 			res.Violation = fmt.Sprintf("send %d: % X is not a channel message of a selected, mapped track", i, g.data)
-			return
+			return res.Violation
 		}
 		seen[string(g.data)]++
 		if seen[string(g.data)] > 1 {
 			res.Violation = fmt.Sprintf("message % X (track %d) was sent %d times", g.data, p.track, seen[string(g.data)])
-			return
+			return res.Violation
 		}
 		wp, _ := portOf(p.track)
 		if g.port != wp%3 {
 			res.Violation = fmt.Sprintf("message % X of track %d went to port %d, track is mapped to port %d", g.data, p.track, g.port, wp%3)
-			return
+			return res.Violation
 		}
 		if li, ok := lastIdx[p.track]; ok && p.idx < li {
 			res.Violation = fmt.Sprintf("track %d: message #%d (% X, tick %d) was sent after message #%d of the same track: file order not kept", p.track, p.idx, g.data, p.abs, li)
-			return
+			return res.Violation
 		}
 		lastIdx[p.track] = p.idx
 		sched, _ := tempo.Exact(int64(c.Res), changes, p.abs).Float64() // microseconds
 		if sched < lastSched-1.5*float64(len(changes)+1) {
 			res.Violation = fmt.Sprintf("send %d (% X, track %d, tick %d, scheduled %.1f us) follows a message scheduled at %.1f us: not merged by non-decreasing time", i, g.data, p.track, p.abs, sched, lastSched)
-			return
+			return res.Violation
 		}
 		if sched > lastSched {
 			lastSched = sched
@@ -270,18 +300,18 @@ func run(c Case) (res ev.Result) {
 		// never early (the library truncates to whole microseconds and may round each tempo segment)
 		if float64(g.at.Nanoseconds())/1000 < sched-float64(len(changes)+2) {
 			res.Violation = fmt.Sprintf("message % X (track %d, tick %d) was sent %.1f us after the start of playback, its scheduled time is %.1f us", g.data, p.track, p.abs, float64(g.at.Nanoseconds())/1000, sched)
-			return
+			return res.Violation
 		}
 	}
 	if len(got) != len(want) {
 		for _, p := range want {
 			if seen[string(p.msg)] == 0 {
 				res.Violation = fmt.Sprintf("message #%d of track %d (% X, tick %d) was never sent (%d of %d sent)", p.idx, p.track, p.msg, p.abs, len(got), len(want))
-				return
+				return res.Violation
 			}
 		}
 	}
-	return
+	return res.Violation
 }
 
 func genCase(t *rapid.T) Case {
@@ -334,6 +364,7 @@ func genCase(t *rapid.T) Case {
 		c.Select = sel
 	}
 	c.UsePlay = rapid.IntRange(0, 3).Draw(t, "usePlay?") == 0
+	c.Twice = rapid.IntRange(0, 4).Draw(t, "playTwice?") == 0
 	if !c.UsePlay {
 		c.Ports = map[int]int{}
 		if rapid.IntRange(0, 3).Draw(t, "default?") > 0 {
@@ -352,7 +383,7 @@ func genCase(t *rapid.T) Case {
 }
 
 var play = ev.NewCheck("C12", "playback",
-	"rapid: format-1 files with 1..5 tracks; 1..6 grid ticks recur in every track with 0..14 events each (so ticks are shared within and across tracks and the concatenation of the tracks is not ordered by time), off-grid notes, metas, sysex and tempo changes sprinkled in; resolution 960 with tempi making one tick 1..50 us, whole file <= ~25 ms; channel messages unique (id in channel/key/velocity); Play(out) or MultiPlay with explicit, default (-1) and missing port mappings; optional track selection; oracle on recording fake out ports (instant = time.Since(start) inside Send): every channel message of a selected, mapped track exactly once on its port, no meta event ever, per-track send order == file order, global order non-decreasing in scheduled time (exact tempo-map integral), no send before its scheduled time; sysex filtered from the comparison; non-trivial = >= 2 selected tracks, > 12 messages and a tick shared by >= 2 events of one track and by another track; distinct by case hash",
+	"rapid: format-1 files with 1..5 tracks; 1..6 grid ticks recur in every track with 0..14 events each (so ticks are shared within and across tracks and the concatenation of the tracks is not ordered by time), off-grid notes, metas, sysex and tempo changes sprinkled in; resolution 960 with tempi making one tick 1..50 us, whole file <= ~25 ms; channel messages unique (id in channel/key/velocity); Play(out) or MultiPlay with explicit, default (-1) and missing port mappings; optional track selection; in one case of five the same TracksReader is played a second time and both runs are checked; oracle on recording fake out ports (instant = time.Since(start) inside Send): every channel message of a selected, mapped track exactly once on its port, no meta event ever, per-track send order == file order, global order non-decreasing in scheduled time (exact tempo-map integral), no send before its scheduled time; sysex filtered from the comparison; non-trivial = >= 2 selected tracks, > 12 messages and a tick shared by >= 2 events of one track and by another track; distinct by case hash",
 	genCase, run)
 
 func TestPropPlayback(t *testing.T) { play.Rapid(t, 150, 2000) }
